@@ -204,6 +204,54 @@ def shadow(F, res):
         res.add([ok("SHADOW", key, "crates/tx3-tir/src/reduce/mod.rs", "%d shadowing inherent methods exist; none is called from the %d functions of the stages' closure" % (len(shadows), len(reach)))])
 
 
+def s_nested(F, res):
+    """`reduce_nested` is the structural half of reduction: it reduces the children and rebuilds the *same* node.  Everything
+    that changes what a node means (folding, merging, unwrapping) belongs to `reduce_self`, which the blanket `reduce` only
+    calls under the `is_constant()` gate (S-REDUCE).  So a reduce_nested impl may call no workspace function other than
+    Apply::reduce / the Composite mappers on its children, and every node it builds under the arm of variant V is a V again."""
+    n = 0
+    for p in sorted(F.fns):
+        f = F.fns[p]
+        if not ((f.get("impl_trait") == COMPOSITE or p == COMPOSITE + "::reduce_nested") and f.get("name") == "reduce_nested") or f.get("owner"):
+            continue
+        n += 1
+        key = "%s|only reduces its children and rebuilds the same node" % p
+        bad = []
+        for g in with_closures(F, f):
+            for bi, t in mir.calls(g):
+                c = t.get("callee") or ""
+                r = t.get("resolved") or c
+                ws = c.startswith(("tx3_", "<tx3_")) or r.startswith(("tx3_", "<tx3_", "<T as tx3_"))
+                if not ws:
+                    continue
+                if t.get("trait") == APPLY and t.get("method") == "reduce":
+                    continue
+                if t.get("trait") == COMPOSITE and t.get("method") in ("try_map_components", "reduce_nested"):
+                    continue
+                if t.get("trait") in ("std::convert::From", "std::convert::Into", "std::clone::Clone", "std::ops::Try", "std::ops::FromResidual"):
+                    continue
+                bad.append((t["line"], "calls %s" % (r.split("::")[-1] if "::" in r else r)))
+        st = f.get("impl_self")
+        a = F.adts.get(st)
+        if a is not None and a["is_enum"]:
+            arms = e3.variant_arms(f)
+            if arms and arms[0] == st:
+                cfg = mir.CFG(f)
+                dname = {v["discr"]: v["name"] for v in a["variants"]}
+                for bi, si, s2 in mir.stmts(f):
+                    rv = s2["rv"]
+                    if rv["k"] == "agg" and rv.get("adt") == st:
+                        doms = [dname.get(d) for d, tb in arms[1].items() if tb == bi or cfg.dominates(tb, bi)]
+                        if doms and rv.get("variant") not in doms:
+                            bad.append((s2["line"], "builds a %s::%s under the arm of %s" % (st.split("::")[-1], rv.get("variant"), "/".join(x for x in doms if x))))
+        if bad:
+            res.add([finding("S-NESTED", key, where(f, bad[0][0]), "reduce_nested %s: a reduction step outside reduce_self is not guarded by is_constant(), so it fires on nodes that still contain parameters and the result depends on whether a reduce ran before the arguments were applied" % "; ".join(sorted({b for _, b in bad})))])
+        else:
+            res.add([ok("S-NESTED", key, where(f), "children reduced with Apply::reduce, same variant rebuilt")])
+    res.count("reduce_nested impls", n)
+    res.floor("reduce_nested impls", n, 2)
+
+
 def node_t1(F, res):
     fam = c06.tir_family(F)
     rows = c06.rows_for("tir")
@@ -225,6 +273,7 @@ def run(ctx):
     res.rule("T2", "Node impls recurse with Node::apply; only Expression's hands the rebuilt node to the visitor")
     res.rule("T1", "Node::apply visits every Expression-bearing field")
     res.rule("S-PURE", "no hidden state in the stages")
+    res.rule("S-NESTED", "reduce_nested only reduces children and rebuilds the same node")
     res.rule("SHADOW", "no traversal call resolves to an inherent method shadowing the trait method")
     s_reduce(F, res)
     s_unwrap(F, res)
@@ -233,4 +282,5 @@ def run(ctx):
     node_t1(F, res)
     s_pure(F, res)
     shadow(F, res)
+    s_nested(F, res)
     return res
